@@ -486,6 +486,29 @@ func init() {
 		rec := c15probeClass("Combine(1)") != "panic"
 		fmt.Fprintf(&b, "/-- Engine.Evaluate converts a panic of the evaluation into an error (probe: `Combine(1)`) -/\n")
 		fmt.Fprintf(&b, "def evaluateRecovers : Bool := %v\n\n", rec)
+		recEmpty := func() (ok bool) {
+			ok = true
+			for _, docs := range [][]*gedcom.Document{nil, {}} {
+				func() {
+					defer func() {
+						if recover() != nil {
+							ok = false
+						}
+					}()
+					eng, err := q.NewParser().ParseString(".Individuals")
+					if err != nil {
+						ok = false
+						return
+					}
+					if _, err := eng.Evaluate(docs); err == nil {
+						ok = false
+					}
+				}()
+			}
+			return
+		}()
+		fmt.Fprintf(&b, "/-- Engine.Evaluate's recover also covers `documents[0]`: with no documents (nil or empty slice) it\n    returns an error (probe: `.Individuals` on both) -/\n")
+		fmt.Fprintf(&b, "def evaluateRecoversNoDocuments : Bool := %v\n\n", recEmpty)
 		nan := c15probeClass(`"NaN" = "nan"`) != "value:true"
 		fmt.Fprintf(&b, "/-- a NaN spelling on both sides is compared numerically (probe: `\"NaN\" = \"nan\"` is false) -/\n")
 		fmt.Fprintf(&b, "def nanIsNumeric : Bool := %v\n\n", nan)
